@@ -16,6 +16,8 @@ def _one(arg):
     try:
         if kind == "lemma":
             return verify_lemma(reg, reg.lemmas[name])
+        if kind == "static":
+            return reg.statics[name][0](reg)
         return verify_contract(reg, reg.contracts[name])
     except Exception as e:
         import traceback
@@ -32,6 +34,10 @@ def verify_modules(mods, only=None, prop=None, jobs=None):
         if only and n not in only: continue
         if prop and prop not in l.props: continue
         items.append((mods, n, "lemma"))
+    for n, (fn, props) in reg.statics.items():
+        if only and n not in only: continue
+        if prop and prop not in props: continue
+        items.append((mods, n, "static"))
     jobs = jobs or min(16, max(1, len(items)))
     if jobs == 1 or len(items) <= 1:
         return [_one(i) for i in items]
